@@ -254,7 +254,7 @@ pub fn gen_signer(c: &mut Choices, nkeys: usize) -> usize {
 
 pub fn gen_op(c: &mut Choices, fam: FamId, nkeys: usize) -> Op {
     let k = gen_signer(c, nkeys);
-    match c.below(26) {
+    match c.below(27) {
         0 => Op::SetSeq { seq: gen_seq(c), k },
         1 | 2 => {
             let key = gen_any_key(c, fam);
@@ -317,6 +317,7 @@ pub fn gen_op(c: &mut Choices, fam: FamId, nkeys: usize) -> Op {
         }
         23 => Op::Reparse { prefix: c.bool() },
         24 => Op::Reserde,
+        25 => Op::CloneFrom,
         _ => Op::SetIp { ip: gen_ip(c), k },
     }
 }
@@ -551,6 +552,14 @@ pub fn alphabet(fam: FamId) -> Vec<Op> {
         Op::CloneSwap,
         Op::Reparse { prefix: false },
         Op::Reserde,
+        Op::CloneFrom,
+        // neighbours of reserved keys (a reserved name plus one character) with values that would be
+        // ill-typed for the reserved key; a key whose RLP header takes the long form
+        Op::Insert { key: b"id6".to_vec(), val: TVal::Str("hello".into()), k: 0 },
+        Op::Insert { key: b"secp256k16".to_vec(), val: TVal::Bytes(vec![1, 2, 3]), k: 0 },
+        Op::InsertRaw { key: b"ed255196".to_vec(), raw: vec![0xc1, 0x05], k: 0 },
+        Op::RemoveInsert { remove: vec![], insert: vec![(b"tcp66".to_vec(), vec![0, 0, 9]), (b"ip4".to_vec(), vec![1])], k: 0 },
+        Op::Insert { key: vec![b'k'; 56], val: TVal::U8(1), k: 0 },
     ];
     if fam.scheme() == Scheme::Secp {
         a.push(Op::Insert { key: b"ed25519".to_vec(), val: TVal::Bytes(vec![5; 32]), k: 0 });
